@@ -1334,7 +1334,7 @@ func binaryEngines(r *mon.Run, bin string, f *cacheFile) {
 // ---- Run ---------------------------------------------------------------------------------
 
 func Run(r *mon.Run) {
-	r.Rule = "fault enumeration over ONE freshly generated cache file F (created by sstls.Listen, ≈900 bytes): engine trunc = every prefix length 0…|F|−1; engine corrupt = every byte position × {flip low bit, replace by \\n, delete}, classified by region (comment, cert marker, cert PEM, key marker, key PEM) — `exhaustive` refers to these two enumerations of that one file only; the thorough tier adds engine bitflip = the other seven single-bit flips of every byte of F. Engine compose = a fixed list of multi-member damages built from two caches A and B (cert of A with key of B and vice versa, swapped/duplicated/extra/empty/missing members, PEM chains, CRLF) plus PRNG compositions. Engine perm = nesting depth 1–4 × number of pre-existing directories × umask {000,022}, in a child process per umask. Engines restart (in-process sstls.Listen) and binrestart (real -race binary on a pty) = PRNG histories over {start, stop, delete cache, start with cache path \"\", start below new directories} checked against the model identity[path] = pin served by the creating run; in two histories of three the cache files are created by a library caller (sstls.Listen) asking for another certificate lifespan (1 ns, 1 µs, 1 ms: the certificate has expired by the next start; 1 s, 1 h, 1 d, 100 y), every later start going through the engine's own driver; binfault = a PRNG sample of truncations/single-byte damages replayed through the binary. Oracle for every damaged file: start-up error, or a completed handshake presenting the original public key (identity = canonical PKIX encoding of the key the client parsed; a same key in different SubjectPublicKeyInfo bytes is counted as same_key_but_spki_bytes_differ, not judged); file bytes/inode/mtime/ctime/mode and directory listing unchanged (mtime is back-dated first so granularity cannot hide a rewrite). distinct_nontrivial = distinct damaged file contents per engine (hash; no-op damages excluded) + distinct history signatures (step kinds and paths) + distinct perm configurations + distinct crash cases. Engine crash = REAL interrupted writes instead of planted prefixes: the cache-creating start runs in a child process (vcheck --child=c08die calling sstls.GetCertificate or sstls.Listen in a fresh directory below 0–2 not-yet-existing directories, umask 000/022/077) under RLIMIT_FSIZE = p for EVERY p in 0…|F|+3 (both tiers; thorough three times with other PRNG choices), so the kernel lets exactly p bytes of whatever file the implementation writes through and then either kills the process with SIGXFSZ (mode kill, three cases of five) or fails the write with EFBIG so that the program's own error path runs (mode efbig = what a Go program gets); plus the real binary exec'ed on a pty under the same limit (--child=c08limit; 8/80 cases); plus, when strace can attach (probed; otherwise coverage.crash_strace_dimension says NOT explored), the child under strace -e inject: SIGKILL or ENOSPC/EIO/EDQUOT at the 1st/2nd write, SIGKILL or EIO at rename*/fsync/fdatasync/link*/chmod*, at the 2nd mkdir*, SIGKILL at the 4th–6th close (an expression that matches nothing in the implementation never fires: crash_strace_fault_never_matched). Afterwards nothing is cleaned up except what an operator would do (PRNG: nothing, or deleting the cache file itself) and three later starts (in-process sstls.Listen; the real binary for some binary cases) are judged: no file at the configured path ⇒ the start must succeed, leave an owner-only regular file there and complete a handshake (missing-cache-not-regenerated otherwise, whatever else the dead run left in the directory); a file at the path ⇒ start-up error, or a completed handshake presenting a key whose certificate the harness's own PEM/x509 scan finds in that file (once a start of the case has served from / regenerated the file: exactly that key), and the file's bytes/inode/mtime/ctime/mode unchanged (back-dated first); after the dead run and after every later start every file and directory below the fresh cache directory, leftovers included, must have no group/other permission bits. What each cut-short run left (names, modes) is tallied in coverage.crash_leftovers_seen, how it ended in coverage.crash_how_the_runs_ended"
+	r.Rule = "fault enumeration over ONE freshly generated cache file F (created by sstls.Listen, ≈900 bytes): engine trunc = every prefix length 0…|F|−1; engine corrupt = every byte position × {flip low bit, replace by \\n, delete}, classified by region (comment, cert marker, cert PEM, key marker, key PEM) — `exhaustive` refers to these two enumerations of that one file only; the thorough tier adds engine bitflip = the other seven single-bit flips of every byte of F. Engine compose = a fixed list of multi-member damages built from two caches A and B (cert of A with key of B and vice versa, swapped/duplicated/extra/empty/missing members, PEM chains, CRLF) plus PRNG compositions. Engine perm = nesting depth 1–4 × number of pre-existing directories × umask {000,022}, in a child process per umask. Engines restart (in-process sstls.Listen) and binrestart (real -race binary on a pty) = PRNG histories over {start, stop, delete cache, start with cache path \"\", start below new directories} checked against the model identity[path] = pin served by the creating run; in two histories of three the cache files are created by a library caller (sstls.Listen) asking for another certificate lifespan (1 ns, 1 µs, 1 ms: the certificate has expired by the next start; 1 s, 1 h, 1 d, 100 y), every later start going through the engine's own driver; binfault = a PRNG sample of truncations/single-byte damages replayed through the binary. Oracle for every damaged file: start-up error, or a completed handshake presenting the original public key (identity = canonical PKIX encoding of the key the client parsed; a same key in different SubjectPublicKeyInfo bytes is counted as same_key_but_spki_bytes_differ, not judged); file bytes/inode/mtime/ctime/mode and directory listing unchanged (mtime is back-dated first so granularity cannot hide a rewrite). distinct_nontrivial = distinct damaged file contents per engine (hash; no-op damages excluded) + distinct history signatures (step kinds and paths) + distinct perm configurations + distinct crash cases + distinct foreign cases. Engine crash = REAL interrupted writes instead of planted prefixes: the cache-creating start runs in a child process (vcheck --child=c08die calling sstls.GetCertificate or sstls.Listen in a fresh directory below 0–2 not-yet-existing directories, umask 000/022/077) under RLIMIT_FSIZE = p for EVERY p in 0…|F|+3 (both tiers; thorough three times with other PRNG choices), so the kernel lets exactly p bytes of whatever file the implementation writes through and then either kills the process with SIGXFSZ (mode kill, three cases of five) or fails the write with EFBIG so that the program's own error path runs (mode efbig = what a Go program gets); plus the real binary exec'ed on a pty under the same limit (--child=c08limit; 8/80 cases); plus, when strace can attach (probed; otherwise coverage.crash_strace_dimension says NOT explored), the child under strace -e inject: SIGKILL or ENOSPC/EIO/EDQUOT at the 1st/2nd write, SIGKILL or EIO at rename*/fsync/fdatasync/link*/chmod*, at the 2nd mkdir*, SIGKILL at the 4th–6th close (an expression that matches nothing in the implementation never fires: crash_strace_fault_never_matched). Afterwards nothing is cleaned up except what an operator would do (PRNG: nothing, or deleting the cache file itself) and three later starts (in-process sstls.Listen; the real binary for some binary cases) are judged: no file at the configured path ⇒ the start must succeed, leave an owner-only regular file there and complete a handshake (missing-cache-not-regenerated otherwise, whatever else the dead run left in the directory); a file at the path ⇒ start-up error, or a completed handshake presenting a key whose certificate the harness's own PEM/x509 scan finds in that file (once a start of the case has served from / regenerated the file: exactly that key), and the file's bytes/inode/mtime/ctime/mode unchanged (back-dated first); after the dead run and after every later start every file and directory below the fresh cache directory, leftovers included, must have no group/other permission bits. What each cut-short run left (names, modes) is tallied in coverage.crash_leftovers_seen, how it ended in coverage.crash_how_the_runs_ended. Engine foreign = the mirror image of engine crash: foreign entries present BEFORE a start that has to generate the cache. One repetition (quick 1, thorough 6 with other PRNG choices) = EVERY one of 35 name patterns a temporary/backup of the cache plausibly has (<name>.tmp, .<name>.tmp, <name>~, .new, .bak, .lock, .part, .XXXXXX, .<random>, .<digits>, <stem>.tmp<ext>, …) × EVERY one of 11 kinds of entry (empty file, key-less scrap, complete cache of another identity, symbolic link to a file in the same directory / elsewhere / nowhere / to a directory, hard link to a file in the same directory / elsewhere, empty / non-empty directory) planted in the existing cache directory with a lax mode (0644 0666 0664 0640 0604 0660 0444 0755 0606; directories 0755 0777 0775 0750 1777); every pattern planted in the deepest existing parent while 1–2 cache directories are still to be made (applied to the cache name and to the first missing directory's name); an EMPTY file with each lax mode, or a dangling symbolic link, at the cache path itself; 60 PRNG mixtures of 2–6 entries in the cache directory and its parent; 12 controls (nothing planted / only a 0600 file); cache names cert.txtar, cache, tls.cache.txtar; base and 0–2 pre-existing directories above with lax modes (never judged: only directories created for the cache are the program's); umasks 000 022 077 027 002 007, one child process (--child=c08foreign, in-process sstls.Listen) per umask; engine binforeign = 6/48 PRNG-picked cases of that list through the real binary. Oracle: no file at the cache path ⇒ the start must succeed (missing-cache-not-regenerated; an empty file at the path is an incomplete write: error expected, file untouched; a failing start with a dangling link at the path is counted, not judged); afterwards the harness scans every regular file below the case root (cache directories, parents, the `elsewhere` directory the planted links point into) with its own PEM/PKCS#8/SEC1 parse + DER search for the private key of the identity the start serves: every inode holding it must have no group/other bits (cache-file-mode when it is the file behind the cache path — e.g. a planted lax file that was truncated, filled and renamed into place keeps its mode — otherwise private-key-in-lax-file), the file behind the cache path must be a regular owner-only file, directories created for the cache owner-only, nothing added but the cache file and those directories (planted entries may disappear: counted); two later starts must serve the same key and leave the file's bytes/inode/times/mode alone, and the scan is repeated"
 	r.Assumptions = []string{
 		"engines trunc/corrupt/compose/binfault model torn writes as prefixes of the final content planted at the configured path (what a crash during os.WriteFile of a new file leaves); engine crash makes no such assumption: the writing process really is killed (SIGXFSZ via RLIMIT_FSIZE after exactly p bytes, SIGKILL injected by strace) or its write really fails (EFBIG, injected ENOSPC/EIO/EDQUOT) and whatever it left is what later runs meet. Power loss with reordered block writes is not modelled",
 		"engine crash: the real binary cannot be killed at byte granularity without a tracer (the Go runtime drops SIGXFSZ, so under RLIMIT_FSIZE its write fails with EFBIG and it exits with an error); deaths mid-write are produced in the library child, which runs the same sstls.GetCertificate/Listen code",
@@ -1344,12 +1344,14 @@ func Run(r *mon.Run) {
 		"an existing zero-length file is an incomplete write (prefix 0), not a missing file",
 		"a binary that does not exit within 20 s of Ctrl+D is inconclusive here (exit behaviour is C20)",
 		"a start without cache path is only required to leave existing caches alone; whether its key is fresh is counted, not judged",
+		"engine foreign: the planted entries stand for things the program did not make (leftovers of a copy/restore/editor or of another version, entries of another user of a shared directory); harness and program run under one uid, so foreign ownership itself is not reproduced — what is judged is the mode of whatever inode ends up holding the private key, which is what a second user's access depends on",
+		"engine foreign: a key that ends up in a planted inode whose mode the program tightened to owner-only before writing is counted (foreign_key_in_planted_inode_tightened_first), not judged; pre-existing directories keep whatever mode they had and are not judged; FIFOs/devices under temporary-like names are not planted (opening them would block, a progress question this property does not ask)",
 	}
 
 	var bin string
 	var binErr error
 	binDone := make(chan struct{})
-	wantBin := r.WantEngine("binrestart") || r.WantEngine("binfault") || r.WantEngine("crash")
+	wantBin := r.WantEngine("binrestart") || r.WantEngine("binfault") || r.WantEngine("crash") || r.WantEngine("binforeign")
 	go func() {
 		defer close(binDone)
 		if wantBin {
@@ -1407,6 +1409,10 @@ func Run(r *mon.Run) {
 		permEngine(r)
 		r.Logf("perm done")
 	}
+	if r.WantEngine("foreign") {
+		foreignEngine(r)
+		r.Logf("foreign done")
+	}
 	if r.WantEngine("restart") {
 		restartEngine(r)
 		r.Logf("restart done")
@@ -1415,12 +1421,18 @@ func Run(r *mon.Run) {
 	if wantBin {
 		if binErr != nil {
 			r.Inconclusive("cannot build the binary: " + binErr.Error())
-		} else if fa != nil || !r.WantEngine("binfault") {
-			if fa == nil { // replay of binrestart only
-				fa = &cacheFile{data: []byte("x\n")}
+		} else {
+			if (fa != nil || !r.WantEngine("binfault")) && (r.WantEngine("binrestart") || r.WantEngine("binfault")) {
+				if fa == nil { // replay of binrestart only
+					fa = &cacheFile{data: []byte("x\n")}
+				}
+				binaryEngines(r, bin, fa)
+				r.Logf("binary engines done")
 			}
-			binaryEngines(r, bin, fa)
-			r.Logf("binary engines done")
+			if r.WantEngine("binforeign") {
+				binForeignEngine(r, bin)
+				r.Logf("binforeign done")
+			}
 		}
 	}
 	if r.WantEngine("crash") {
@@ -1473,4 +1485,28 @@ func Run(r *mon.Run) {
 	r.Floor("crash_later_same_key", 600)
 	r.Floor("crash_later_error", 600)
 	r.Floor("crash_mode_checks", 3000)
+	// engine foreign: foreign entries present before the generating start
+	r.Floor("foreign_cases", 500)
+	r.Floor("foreign_cases_binforeign", 6)
+	for _, um := range foreignUmasks {
+		r.Floor(fmt.Sprintf("foreign_cases_umask_%03o", um), 50)
+	}
+	r.Floor("foreign_name_patterns_planted_as_every_kind", int64(len(foreignPatterns)))
+	for _, k := range foreignKinds {
+		r.Floor("foreign_plants_kind_"+k, 50)
+	}
+	r.Floor("foreign_plants_lax_files", 400)
+	r.Floor("foreign_plants_where_cachedir", 500)
+	r.Floor("foreign_plants_where_parent", 70)
+	r.Floor("foreign_plants_where_above", 30)
+	r.Floor("foreign_plants_where_cachepath", 20)
+	r.Floor("foreign_lax_preexisting_dirs", 700)
+	r.Floor("foreign_generating_starts", 500)
+	r.Floor("foreign_files_scanned_for_the_key", 2000)
+	r.Floor("foreign_key_holders_checked", 900)
+	r.Floor("foreign_cache_file_holds_the_served_key", 500)
+	r.Floor("foreign_created_dirs_checked", 60)
+	r.Floor("foreign_later_starts_same_key", 900)
+	r.Floor("foreign_empty_file_at_cache_path_starts", 10)
+	r.Floor("foreign_controls_nothing_planted", 4)
 }
